@@ -151,8 +151,14 @@ class RowBuffers(BaseDomain):
         for t in tops:
             if isinstance(t, ast.Name):
                 byref_names.add(t.id)
+        # `q.popleft()` / `q.pop()` hands out one ELEMENT of q and removes it: q itself is not what is delivered
+        taken_from = set()
         for n in _walk(e):
-            if isinstance(n, ast.Name) and isinstance(n.ctx, ast.Load) and n.id in st:
+            if isinstance(n, ast.Call) and isinstance(n.func, ast.Attribute) and isinstance(n.func.value, ast.Name) and \
+                    n.func.attr in ('pop', 'popleft', 'popitem'):
+                taken_from.add(id(n.func.value))
+        for n in _walk(e):
+            if isinstance(n, ast.Name) and isinstance(n.ctx, ast.Load) and n.id in st and id(n) not in taken_from:
                 for k in self._aliases(n.id, st):
                     s2, k2, d2, r2, p2 = st[k]
                     for nid in p2:
